@@ -186,6 +186,10 @@ def translate_unit(n, mode='unrolled'):
         got = 'ok' if exc is None else getattr(getattr(exc, 'abort_type', None), 'name', type(exc).__name__)
         lines.append('real outcome %s ; architectural outcome %s%s' % (got, want, ' (UNPREDICTABLE input)' if sp['unpred'] else ''))
         bad = False
+        if exc is not None and not isinstance(exc, m.arm_exceptions.ArmulatorException):
+            # a host-level error is never an architectural outcome, UNPREDICTABLE region programming included (C18)
+            lines.append('host-level error: %s: %s' % (type(exc).__name__, exc))
+            return True, '\n'.join(lines)
         if sp['unpred']:
             return False, '\n'.join(lines)
         if got != want:
